@@ -1,3 +1,474 @@
 package main
 
-func longCases() []kase { return nil }
+import (
+	"fmt"
+	"math/rand"
+	"os"
+	"runtime"
+	"sync"
+	"time"
+
+	"golang.org/x/net/http2"
+
+	"verif/internal/h2peer"
+)
+
+// Long histories: one connection, thousands of streams of mixed fates. After
+// every batch (all handlers / client goroutines returned, all streams closed,
+// one PING round trip) the un-returned connection-level credit must be within
+// the fixed bound, however many streams have passed.
+
+var (
+	creditMu      sync.Mutex
+	maxUnreturned int64 = -1 << 62
+	creditSamples []int64
+)
+
+func noteCredit(u int64) {
+	creditMu.Lock()
+	if u > maxUnreturned {
+		maxUnreturned = u
+	}
+	creditMu.Unlock()
+}
+
+func waitCh(ch <-chan struct{}) bool {
+	select {
+	case <-ch:
+		return true
+	case <-time.After(watchdog):
+		return false
+	}
+}
+
+type longCase struct {
+	Family   string         `json:"family"`
+	Rig      string         `json:"rig"`
+	Index    int            `json:"index"`
+	Streams  int            `json:"streams"`
+	Seed     int64          `json:"seed"`
+	AtBatch  int            `json:"at_batch,omitempty"`
+	AtStream int            `json:"streams_so_far,omitempty"`
+	Fates    map[string]int `json:"fates,omitempty"`
+	Trace    []int64        `json:"unreturned_trace,omitempty"`
+}
+
+func longCases() []kase {
+	n := run.Pick(3000, 50000)
+	var cases []kase
+	for i, rigName := range []string{"S", "T"} {
+		rigName := rigName
+		c := &longCase{Family: "long", Rig: rigName, Index: i, Streams: n, Seed: run.Rand(3000017 + int64(i)).Int63()}
+		cases = append(cases, kase{family: "long", rig: rigName, index: i, exec: func() (*finding, any) {
+			k := *c
+			k.Fates = map[string]int{}
+			var f *finding
+			if rigName == "S" {
+				f = runLongS(&k)
+			} else {
+				f = runLongT(&k)
+			}
+			run.Distinct(fmt.Sprintf("long/%s/%d", rigName, k.Streams))
+			for fate, cnt := range k.Fates {
+				run.Add("long-"+rigName+"-fate-"+fate, int64(cnt))
+			}
+			run.Set("long_history_unreturned_trace_"+rigName, k.Trace)
+			return f, &k
+		}})
+	}
+	return cases
+}
+
+func (c *longCase) trace(u int64) {
+	if len(c.Trace) < 40 || c.AtBatch%50 == 0 {
+		if len(c.Trace) < 400 {
+			c.Trace = append(c.Trace, u)
+		}
+	}
+}
+
+// waitSend waits until the implementation's advertised windows allow n more bytes on sid.
+func waitSend(l *h2peer.Ledger, sid uint32, n int64, streamToo bool) bool {
+	ok, d := l.WaitUntil(watchdog, func() bool {
+		if l.ConnSendAllowance() < n {
+			return false
+		}
+		return !streamToo || l.StreamSendAllowance(sid) >= n
+	})
+	noteWait(d)
+	return ok
+}
+
+// sendPayload sends one DATA frame with n payload bytes, sometimes padded.
+func sendPayload(l *h2peer.Ledger, u *up, n int64, pad bool, rng *rand.Rand) error {
+	b := make([]byte, n)
+	h2peer.FillBody(u.key, u.off, b)
+	u.off += n
+	padLen := -1
+	if pad {
+		padLen = rng.Intn(256)
+	}
+	return l.Data(u.sid, false, b, padLen)
+}
+
+func runLongS(c *longCase) *finding {
+	rng := rand.New(rand.NewSource(c.Seed))
+	const upConn, upStream = 256 << 10, 64 << 10
+	s, err := newSrig(scfg{IW0: 65535, MFS0: -1, UpConn: upConn, UpStream: upStream, Sched: []string{"", "prio", "random"}[rng.Intn(3)]})
+	if err != nil {
+		return &finding{class: "S/long/setup", msg: err.Error(), incon: true}
+	}
+	defer s.shutdown()
+	l := s.l
+	pre := "S/long/"
+	adv := l.ConnSendAllowance()
+	defer func() { collectStats(l, "S"); run.Add("handler-starts", s.starts) }()
+	keyBase := uint64(rng.Int63())
+	fates := []string{"complete", "complete", "peer-reset", "server-abort", "ignored", "closed-early"}
+	type ls struct {
+		fate string
+		pl   *plan
+		u    *up
+		n    int64 // request body size
+		k    int64
+		sent int64
+		idx  int
+	}
+	ended := func() string {
+		if ga, code, dbg := l.GoAway(); ga {
+			return fmt.Sprintf("GOAWAY %v %q", code, dbg)
+		}
+		if l.EOF() {
+			return "connection closed"
+		}
+		return ""
+	}
+	idx := 0
+	for done := 0; done < c.Streams; {
+		c.AtBatch++
+		b := 4 + rng.Intn(9)
+		if b > c.Streams-done {
+			b = c.Streams - done
+		}
+		var batch []*ls
+		for i := 0; i < b; i++ {
+			idx++
+			st := &ls{fate: fates[rng.Intn(len(fates))], idx: idx}
+			st.n = pick64(rng, 0, 1, 100, 5000, 16384, 30000, rng.Int63n(30000))
+			st.k = st.n
+			pl := &plan{Key: keyBase + uint64(idx), Abort: -1, Resp: pick64(rng, 0, 1, 100, 3000, rng.Int63n(5000)), W: 1 + rng.Intn(4000), Flush: rng.Intn(2) == 0, ReadSz: 1 + rng.Intn(20000)}
+			switch st.fate {
+			case "complete":
+				pl.Req = "all"
+			case "peer-reset":
+				pl.Req = "all"
+				if st.n > 0 {
+					st.k = rng.Int63n(st.n)
+				}
+			case "server-abort":
+				pl.Req, pl.ReqN = "part", st.n/2
+				pl.Resp, pl.Abort = 100+pl.Resp, 1+rng.Int63n(50)
+			case "ignored":
+				pl.Req = "ignore"
+			case "closed-early":
+				pl.Req, pl.ReqN = "partclose", st.n/3
+			}
+			st.pl = pl
+			sid, err := s.request(idx, pl, true)
+			if err != nil {
+				return &finding{class: pre + "write", msg: err.Error() + " " + ended(), incon: ended() == ""}
+			}
+			st.u = &up{sid: sid, key: reqKey(pl.Key)}
+			batch = append(batch, st)
+			c.Fates[st.fate]++
+		}
+		// send the bodies interleaved
+		for active := true; active; {
+			active = false
+			for _, st := range batch {
+				if st.sent >= st.k {
+					continue
+				}
+				chunk := 1 + rng.Int63n(12000)
+				if chunk > st.k-st.sent {
+					chunk = st.k - st.sent
+				}
+				if !waitSend(l, st.u.sid, chunk+256, false) {
+					if e := ended(); e != "" {
+						return &finding{class: pre + "connection-ended", msg: fmt.Sprintf("after %d streams: %s", done, e)}
+					}
+					c.AtStream = done
+					return &finding{class: pre + "credit-not-returned", msg: fmt.Sprintf("after %d streams the connection window stays exhausted for %v: connection allowance %d, un-returned credit %d (advertised %d)", done, watchdog, l.ConnSendAllowance(), adv-l.ConnSendAllowance(), adv)}
+				}
+				if err := sendPayload(l, st.u, chunk, rng.Intn(4) == 0, rng); err != nil {
+					return &finding{class: pre + "write", msg: err.Error() + " " + ended(), incon: ended() == ""}
+				}
+				st.sent += chunk
+				active = true
+			}
+		}
+		for _, st := range batch {
+			if st.fate == "peer-reset" {
+				l.Reset(st.u.sid, http2.ErrCodeCancel)
+			} else {
+				l.Data(st.u.sid, true, nil, -1)
+			}
+		}
+		// quiescent point: handlers returned, streams closed, one PING round trip
+		for _, st := range batch {
+			if !waitCh(st.pl.done) {
+				return &finding{class: pre + "handler", msg: fmt.Sprintf("handler of stream %d (%s) did not return: %s", st.u.sid, st.fate, ended()), incon: ended() == ""}
+			}
+		}
+		ok, d := l.WaitUntil(watchdog, func() bool {
+			for _, st := range batch {
+				if st.fate == "peer-reset" {
+					continue
+				}
+				if x := l.Stream(st.u.sid); !x.Ended && !x.ImplReset {
+					return false
+				}
+			}
+			return true
+		})
+		noteWait(d)
+		if v := l.Violations(); len(v) > 0 {
+			return &finding{class: pre + v[0].Kind, msg: v[0].Msg}
+		}
+		if !ok {
+			if e := ended(); e != "" {
+				return &finding{class: pre + "connection-ended", msg: fmt.Sprintf("after %d streams: %s", done, e)}
+			}
+			return &finding{class: pre + "queued-data-not-delivered", msg: fmt.Sprintf("after %d streams: responses of the batch did not complete within %v (connection allowance %d)", done, watchdog, l.ConnAllowance())}
+		}
+		if err := l.FenceControl(watchdog); err != nil {
+			return &finding{class: pre + "fence", msg: "PING not answered: " + ended(), incon: ended() == ""}
+		}
+		run.Add("fences", 1)
+		if v := l.Violations(); len(v) > 0 {
+			return &finding{class: pre + v[0].Kind, msg: v[0].Msg}
+		}
+		for _, st := range batch {
+			if st.fate == "complete" && (st.pl.read != st.n || st.pl.badAt >= 0) {
+				return &finding{class: pre + "request-body", msg: fmt.Sprintf("stream %d: handler read %d of %d bytes, first bad offset %d, err %q", st.u.sid, st.pl.read, st.n, st.pl.badAt, st.pl.rerr)}
+			}
+			x := l.Stream(st.u.sid)
+			if st.fate == "complete" && (!x.Ended || x.Got != x.Total) {
+				return &finding{class: pre + "response-body", msg: fmt.Sprintf("stream %d: response %d of %d bytes, ended=%v", st.u.sid, x.Got, x.Total, x.Ended)}
+			}
+			l.Forget(st.u.sid)
+			s.plans.Delete(st.idx)
+		}
+		done += b
+		u := adv - l.ConnSendAllowance()
+		noteCredit(u)
+		c.trace(u)
+		run.Add("credit-bound-checks", 1)
+		run.Add("long-history-streams", int64(b))
+		if u > creditBound {
+			c.AtStream = done
+			wu0, sent := l.ConnCredit()
+			return &finding{class: pre + "credit-not-returned", msg: fmt.Sprintf("after %d streams (all closed, handlers returned, PING answered) the un-returned connection-level credit is %d bytes (> %d): advertised %d, peer sent %d flow-controlled bytes, stream-0 WINDOW_UPDATEs total %d", done, u, creditBound, adv, sent, wu0)}
+		}
+		// give the server its own send window back
+		if a := l.ConnAllowance(); a < 1<<20 {
+			l.WindowUpdate(0, uint32(1<<20-a))
+			run.Add("grants", 1)
+		}
+	}
+	return nil
+}
+
+func runLongT(c *longCase) *finding {
+	rng := rand.New(rand.NewSource(c.Seed))
+	t, err := newTrig(tcfg{IW0: 1 << 20, MFS0: -1})
+	if err != nil {
+		return &finding{class: "T/long/setup", msg: err.Error(), incon: true}
+	}
+	defer t.shutdown()
+	l := t.l
+	pre := "T/long/"
+	adv := l.ConnSendAllowance()
+	defer func() { collectStats(l, "T"); run.Add("transport-requests", t.starts) }()
+	l.WindowUpdate(0, 1<<20)
+	keyBase := uint64(rng.Int63())
+	fates := []string{"complete", "complete", "client-close", "client-cancel", "peer-reset", "ignored", "early-response"}
+	type ls struct {
+		fate string
+		q    *treq
+		u    *up
+		m    int64 // response body size
+		k    int64 // bytes the peer sends before a reset
+		idx  int
+	}
+	ended := func() string {
+		if ga, code, dbg := l.GoAway(); ga {
+			return fmt.Sprintf("GOAWAY %v %q", code, dbg)
+		}
+		if l.EOF() {
+			return "connection closed"
+		}
+		return ""
+	}
+	idx := 0
+	for done := 0; done < c.Streams; {
+		c.AtBatch++
+		b := 4 + rng.Intn(9)
+		if b > c.Streams-done {
+			b = c.Streams - done
+		}
+		var batch []*ls
+		for i := 0; i < b; i++ {
+			idx++
+			st := &ls{fate: fates[rng.Intn(len(fates))], idx: idx}
+			st.m = pick64(rng, 0, 1, 100, 5000, 16384, 30000, rng.Int63n(30000))
+			st.k = st.m
+			q := &treq{Key: keyBase + uint64(idx), Size: pick64(rng, 0, 1, 100, 5000, 20000, rng.Int63n(20000)), Chunk: 1 + rng.Intn(20000), CL: rng.Intn(2) == 0, ReadSz: 1 + rng.Intn(20000)}
+			q.respKey = reqKey(q.Key)
+			switch st.fate {
+			case "complete", "early-response":
+				q.Resp = "all"
+			case "client-close":
+				q.Resp, q.RespN = "part", st.m/3
+			case "client-cancel":
+				q.Resp, q.RespN = "cancel", st.m/3
+			case "peer-reset":
+				q.Resp = "all"
+				if st.m > 0 {
+					st.k = rng.Int63n(st.m)
+				}
+			case "ignored":
+				q.Resp = "close"
+			}
+			st.q = q
+			t.start(idx, q)
+			batch = append(batch, st)
+			c.Fates[st.fate]++
+		}
+		for _, st := range batch {
+			sid, err := t.waitSid(st.idx)
+			if err != nil {
+				if v := l.Violations(); len(v) > 0 {
+					return &finding{class: pre + v[0].Kind, msg: v[0].Msg}
+				}
+				if os.Getenv("VERIF_C12_DEBUG") != "" {
+					buf := make([]byte, 1<<22)
+					os.Stderr.Write(buf[:runtime.Stack(buf, true)])
+				}
+				return &finding{class: pre + "no-headers", msg: err.Error() + " " + ended(), incon: ended() == ""}
+			}
+			st.u = &up{sid: sid, key: st.q.respKey}
+		}
+		// the request bodies arrive; answer
+		for _, st := range batch {
+			if st.fate != "early-response" {
+				ok, d := l.WaitUntil(watchdog, func() bool { x := l.Stream(st.u.sid); return x.Ended || x.ImplReset })
+				noteWait(d)
+				if !ok {
+					if v := l.Violations(); len(v) > 0 {
+						return &finding{class: pre + v[0].Kind, msg: v[0].Msg}
+					}
+					if e := ended(); e != "" {
+						return &finding{class: pre + "connection-ended", msg: fmt.Sprintf("after %d streams: %s", done, e)}
+					}
+					x := l.Stream(st.u.sid)
+					return &finding{class: pre + "queued-data-not-delivered", msg: fmt.Sprintf("after %d streams: request body of stream %d stuck at %d of %d bytes (stream allowance %d, connection allowance %d)", done, st.u.sid, x.Got, x.Total, l.Allowance(st.u.sid), l.ConnAllowance())}
+				}
+			}
+			l.Respond(st.u.sid, "200", false)
+		}
+		for active := true; active; {
+			active = false
+			for _, st := range batch {
+				if st.u.off >= st.k {
+					continue
+				}
+				chunk := 1 + rng.Int63n(12000)
+				if chunk > st.k-st.u.off {
+					chunk = st.k - st.u.off
+				}
+				if !waitSend(l, st.u.sid, chunk, true) {
+					c.AtStream = done
+					return &finding{class: pre + "credit-not-returned", msg: fmt.Sprintf("after %d streams the advertised window stays exhausted: connection allowance %d, stream allowance %d %s", done, l.ConnSendAllowance(), l.StreamSendAllowance(st.u.sid), ended())}
+				}
+				// sendFlow counts flow-controlled bytes; without padding they are the payload
+				if _, err := sendFlow(l, st.u, chunk, false, rng, false); err != nil {
+					return &finding{class: pre + "write", msg: err.Error() + " " + ended(), incon: ended() == ""}
+				}
+				active = true
+			}
+		}
+		for _, st := range batch {
+			if st.fate == "peer-reset" {
+				l.Reset(st.u.sid, http2.ErrCodeCancel)
+			} else {
+				// some padding on the last frame
+				pad := -1
+				if rng.Intn(4) == 0 {
+					pad = rng.Intn(200)
+				}
+				l.Data(st.u.sid, true, nil, pad)
+			}
+		}
+		for _, st := range batch {
+			if !waitCh(st.q.done) {
+				return &finding{class: pre + "client", msg: fmt.Sprintf("client goroutine of stream %d (%s) did not return: %s", st.u.sid, st.fate, ended()), incon: ended() == ""}
+			}
+		}
+		if ok, _ := l.WaitUntil(watchdog, func() bool {
+			for _, st := range batch {
+				if x := l.Stream(st.u.sid); !x.Ended && !x.ImplReset {
+					return false
+				}
+			}
+			return true
+		}); !ok {
+			return &finding{class: pre + "request-end", msg: "a request stream of the batch was neither ended nor reset: " + ended(), incon: true}
+		}
+		if err := l.FenceControl(watchdog); err != nil {
+			if v := l.Violations(); len(v) > 0 {
+				return &finding{class: pre + v[0].Kind, msg: v[0].Msg}
+			}
+			return &finding{class: pre + "fence", msg: "PING not answered: " + ended(), incon: ended() == ""}
+		}
+		run.Add("fences", 1)
+		if v := l.Violations(); len(v) > 0 {
+			hard := v[0]
+			for _, x := range v {
+				if x.Kind != "stream-window-decrease-race" && x.Kind != "max-frame-size-decrease-race" {
+					hard = x
+					break
+				}
+			}
+			return &finding{class: pre + hard.Kind, msg: hard.Msg}
+		}
+		for _, st := range batch {
+			q := st.q
+			if (st.fate == "complete" || st.fate == "early-response") && (q.err != "" || q.read != st.m || q.badAt >= 0 || q.bodyErr != "") {
+				return &finding{class: pre + "response-body", msg: fmt.Sprintf("stream %d (%s): client read %d of %d bytes, first bad offset %d, errors %q %q", st.u.sid, st.fate, q.read, st.m, q.badAt, q.err, q.bodyErr)}
+			}
+			if st.fate == "complete" {
+				if x := l.Stream(st.u.sid); !x.Ended || x.Got != x.Total {
+					return &finding{class: pre + "request-body", msg: fmt.Sprintf("stream %d: request body %d of %d bytes, ended=%v", st.u.sid, x.Got, x.Total, x.Ended)}
+				}
+			}
+			l.Forget(st.u.sid)
+		}
+		done += b
+		u := adv - l.ConnSendAllowance()
+		noteCredit(u)
+		c.trace(u)
+		run.Add("credit-bound-checks", 1)
+		run.Add("long-history-streams", int64(b))
+		if u > creditBound {
+			c.AtStream = done
+			wu0, sent := l.ConnCredit()
+			return &finding{class: pre + "credit-not-returned", msg: fmt.Sprintf("after %d streams (all closed, client goroutines returned, PING answered) the un-returned connection-level credit is %d bytes (> %d): advertised %d, peer sent %d flow-controlled bytes, stream-0 WINDOW_UPDATEs total %d", done, u, creditBound, adv, sent, wu0)}
+		}
+		if a := l.ConnAllowance(); a < 1<<20 {
+			l.WindowUpdate(0, uint32(1<<20-a))
+			run.Add("grants", 1)
+		}
+	}
+	return nil
+}
